@@ -63,7 +63,9 @@ func (ed Editor) Chars(start, end int) Editor {
 	// as proper indexes which means that will panic. So if start is past the
 	// end, immediately return the subEd of that without further checking
 	if start >= len(indexes) {
-		return ed.subEd(start, end)
+		// start and end are character indexes here, not byte offsets; the
+		// selection is the empty range at the end of the text
+		return ed.subEd(len(ed.Text), len(ed.Text))
 	}
 
 	runeStart := indexes[start][0]
